@@ -50,11 +50,23 @@ def gen_plan(rng, tier, index):
             if rng.chance(0.6):
                 n = len(spec['rdm_uids'] if ax == 'rdm' else spec['cond_uids'])
                 spec[key]['grp'] = gen.gen_grouping(rng, n, kinds=('unique',))
+    elif rng.chance(0.06):
+        # many groups with repeated (string / int) labels: look-ups with long value lists
+        spec = gen.gen_rdms_spec(rng, n_rdm=(19, 34), n_cond=(19, 30), nan_prob=0.0, kinds=('groups',), allow_allsame=False)
+        for key, n in (('rdm_desc', len(spec['rdm_uids'])), ('pat_desc', len(spec['cond_uids']))):
+            labs = [i // 2 for i in range(n)]          # groups of two (one of one): at least 10, typically 10-17 groups
+            if rng.chance(0.7):
+                labs = [i * 3 // 4 for i in range(n)]  # groups of 1-2: about 3n/4 groups
+            rng.shuffle(labs)
+            typ = rng.pick(['str', 'str', 'int', 'float'])
+            vals = ['sub-%02d' % x for x in labs] if typ == 'str' else ([x + 0.5 for x in labs] if typ == 'float' else labs)
+            spec[key]['grp'] = {'values': vals, 'container': rng.pick(['list', 'array']), 'kind': 'groups', 'type': typ}
     else:
         spec = gen.gen_rdms_spec(rng, n_rdm=(1, 8 if big else 7), n_cond=(3, 12 if big else 9), nan_prob=0.15)
     g = rng.pick(GENS)
     plan = {'mode': mode, 'spec': spec, 'gen': g,
-            'rdm_desc': rng.pick(['grp', 'grp', 'index', 'uid']), 'pat_desc': rng.pick(['grp', 'grp', 'index', 'uid']),
+            'rdm_desc': rng.pick(['grp', 'grp', 'index', 'uid']),
+            'pat_desc': rng.pick(['grp', 'grp', 'index', 'uid'] + (['pos'] if 'pos' in spec['pat_desc'] else [])),
             'pre_boot': rng.pick([None, None, 'both', 'rdm', 'pattern']) if mode == 'A' else rng.pick([None, None, 'rdm']),
             'random': rng.chance(0.6),
             'k_rdm': rng.randint(1, 6), 'k_pattern': rng.randint(1, 6), 'k': rng.randint(1, 5),
@@ -264,6 +276,17 @@ def oracle_A(ctx, plan, src, tabs, res, info):
                               f'{g} fold {f}: {name} set holds condition uids {sorted(pu.items())} which is not the whole '
                               f'of its condition groups {sorted(map(str, pg))}')
                 return
+        # bootstrap copies (same unique id) must be on the same side, whatever descriptor is used for grouping
+        if info['fold_rdm'] > 1 and set(tr_ru) & set(te_ru):
+            ctx.violation('folds_ref.copies', f'{sig}:rdm-copies-split',
+                          f'{g} fold {f}: copies of RDM(s) {sorted(set(tr_ru) & set(te_ru))} are in both the training and the test set '
+                          f'(grouping by {rd!r})')
+            return
+        if info['fold_pat'] > 1 and set(tr_pu) & set(te_pu):
+            ctx.violation('folds_ref.copies', f'{sig}:pattern-copies-split',
+                          f'{g} fold {f}: copies of condition(s) {sorted(set(tr_pu) & set(te_pu))} are in both the training and the test set '
+                          f'(grouping by {pdn!r})')
+            return
         if info['fold_rdm'] > 1 and tr_r & te_r:
             ctx.violation('folds_ref.disjoint', f'{sig}:rdm-overlap',
                           f'{g} fold {f}: RDM groups {sorted(map(str, tr_r & te_r))} are in both training and test set')
